@@ -114,6 +114,7 @@ Inductive case :=
 | CDetect (m : s2d) (conv : result serr session) (maps : list (list (bool * N)))
 | CHistory (h : list (N * devent)) (obs : list (N * list (N * N)))   (* real SessionTracker, answer + table after every command *)
 | CPubsub (h : list (N * pevent)) (obs : list (N * N))                (* real ingest_from_pubsub over a scripted connection: final table *)
+| CShutdown (obs : list s2d)                 (* the Clear messages published by Cleanup() after cancel() + wg.Wait() *)
 | CPublishFail (usable announced : bool)                              (* register() with a failing PUBLISH *)
 | CLifetimes (unused active : N)                   (* RegisteredDecoys.timeoutUnused / timeoutActive, ns *)
 | CProto (t : transport) (p : N).                  (* Transport.GetProto() *)
@@ -133,6 +134,7 @@ Definition chk (c : case) : bool :=
                (map (fun st => canon mc (detector_step NOW st m)) (start_maps mc)) maps
   | CHistory h obs => history_matches (map (fun te => ev_tag (snd te)) h) [] h obs
   | CPubsub h obs => table_matches (map (fun te => ptag (snd te)) h) (prun [] h) obs
+  | CShutdown obs => list_eqb s2d_eqb (cleanup true) obs
   | CPublishFail u a => let '(mu, ma) := register_outcome false in Bool.eqb mu u && Bool.eqb ma a
   | CLifetimes u a => (station_lifetime false =? u) && (station_lifetime true =? a)
   | CProto t p => proto_eqb (transport_proto t) (wire_proto p)
